@@ -95,13 +95,17 @@ def foreign_call(obj, what, kind):
             other = xr.DataArray(S[:, None] * np.ones((1, 4)), dims=("freq", "dir"), coords={"freq": f, "dir": np.arange(4) * 90.0}, name="efth")
             getattr(other.spec, what)()
             return
-        ds = obj if isinstance(obj, xr.Dataset) else obj.to_dataset(name="efth")
-        if "time" not in ds.dims:
-            ds = ds.expand_dims(time=np.array(["2021-01-01T00"], dtype="datetime64[ns]"))
-        ds = ds.expand_dims(site=[1])
-        ds["lon"] = (("site",), np.array([170.5]))
-        ds["lat"] = (("site",), np.array([-35.25]))
-        ds = ds.transpose("time", "site", "freq", "dir")
+        da = obj["efth"] if isinstance(obj, xr.Dataset) else obj
+        buf = da.variable._data                      # the object's own buffer
+        if not isinstance(buf, np.ndarray) or not buf.flags.c_contiguous:
+            return
+        nt_ = da.sizes.get("time", 1)
+        view = buf.reshape((nt_, 1, da.sizes["freq"], da.sizes["dir"]))   # writable view, no copy
+        assert np.shares_memory(view, buf)
+        tv = da.time.values if "time" in da.dims else np.array(["2021-01-01T00"], dtype="datetime64[ns]")
+        ds = xr.Dataset({"efth": (("time", "site", "freq", "dir"), view), "lon": (("site",), np.array([170.5])),
+                         "lat": (("site",), np.array([-35.25]))},
+                        coords={"time": tv, "site": [1], "freq": da.freq.values, "dir": da.dir.values})
         tmp = tempfile.mkdtemp(prefix="c18w_")
         try:
             getattr(ds.spec, what)(os.path.join(tmp, "out." + ("nc" if what in ("to_ww3", "to_netcdf") else "txt")))
@@ -262,16 +266,30 @@ def make_history(args):
     # one history in eight starts with the pattern "partition a non-flat spectrum, overwrite it in place with a flat non-zero
     # one, partition again" (the watershed's early-return path right after a call that filled its static buffers)
     forced = []
-    if rng.random() < 0.125:
+    u0 = rng.random()
+    if u0 < 0.125:
         forced = [("obs", rng.choice(["ptm3", "ptm3", "smooth", "ptm5"])), ("flat", None), ("obs", "ptm3")]
+        nsteps = max(nsteps, 4)
+    elif u0 < 0.2:
+        # a curve fit on some other object, then statistics of a calm (all-zero) spectrum, which make numpy warn
+        forced = [("fo", rng.choice(["fit_jonswap", "fit_gaussian"])), ("calm", None), ("obs", rng.choice(["dpspr", "tm01", "swe", "dspr"]))]
+        nsteps = max(nsteps, 4)
+    elif u0 < 0.3:
+        # the object is written to a file between two observations
+        forced = [("obs", "hs"), ("fo", rng.choice(["to_ww3", "to_swan", "to_netcdf", "to_json"])), ("obs", rng.choice(["hs", "oned", "tm02"]))]
         nsteps = max(nsteps, 4)
     for istep in range(nsteps):
         last = istep == nsteps - 1
         r = rng.random()
         step = forced.pop(0) if forced else None
-        if step and step[0] == "flat":
+        if step and step[0] == "fo":
+            ops.append(f"fo:{step[1]}")
+            foreign_call(obj, step[1], kind)
+            results.append(None)
+            continue
+        if step and step[0] in ("flat", "calm"):
             ops.append("ee")
-            c = rng.choice([0.5, 2.0, 3.0])
+            c = 0.0 if step[0] == "calm" else rng.choice([0.5, 2.0, 3.0])
             E = np.full((nt, nf, nd), c) if nt else np.full((nf, nd), c)
             evers.append(E)
             if kind == "ds":
